@@ -8,7 +8,7 @@ TABLE = [
      "are compared exactly with numpy boolean indexing. Complete inside the bound, nothing sampled.", "4/C01"),
     ("C02", _SCOPE + " (all shapes x scales x origins x pixels x in-pixel offsets; every step of each mask-constructor step function)",
      "All shapes up to 6x6 x 7 pixel-scale pairs x 6 origins x every pixel x 81 in-pixel offsets through every public "
-     "conversion route, and for the shape-based mask constructors one radius inside every gap between consecutive "
+     "conversion route (coordinates also handed in every dtype / container / memory-layout form), and for the shape-based mask constructors one radius inside every gap between consecutive "
      "distinct pixel-centre radii, so every distinct mask the constructor can return for a geometry is produced; "
      "closed-form oracle; the 1e-9 tie bands the property excludes are excluded by construction.", "4/C02"),
     ("C03", _SCOPE + " (operator extraction on basis images for all interior masks x odd kernel shapes)",
@@ -25,8 +25,9 @@ TABLE = [
      "Every SPD system A=R^T R+rho I over a small integer alphabet (n=2,3; n=4 thorough) x every right-hand side of the "
      "alphabet x {cold start, sign-pattern warm start, every boolean warm start} is solved by the real fnnls_cholesky "
      "and checked by the KKT certificate plus brute force over all supports; inversion level: datasets with positive, "
-     "mixed and negative data x object lists x formalisms x solver flags (KKT of the reduced system, forced zeros, "
-     "per-object mapped data).", "4/C05"),
+     "mixed and negative data x object lists x formalisms x solver flags incl. edge and image-pixel forced zeros (KKT of the "
+     "reduced system, forced-zero id set derived independently, per-object mapped data); every solver system and a family of "
+     "datasets are repeated in other units (exact rescaling must give the rescaled optimum).", "4/C05"),
     ("C09", _SCOPE + " (all small masks x geometries x sub-size maps x a 38-function grammar x schedules and thresholds)",
      "All masks with <= 9 cells x 12 geometries x sub-size maps (uniform 1..4 (8), every map in {1,2,3}^n for small n, cyclic "
      "patterns, config-driven adaptive maps) x 38 user functions through the decorator, array_via_func_from, "
@@ -99,7 +100,9 @@ TABLE = [
      "For every assignment of the public preload slots (48) x formalism setting x object list x mask, all histories of "
      "successive inversions (3 read orders x fresh/reused linear objects) sharing the Preloads object and dataset are "
      "explored to depth 3 (4) with state de-duplication; every output must equal the no-preload reference, preloaded "
-     "arrays must stay byte-identical, and the factory's formalism choice must not change values.", "4/C15"),
+     "arrays must stay byte-identical, and the factory's formalism choice must not change values (function-only lists "
+     "included); further events: a second image sharing the w-tilde tables, tables from a rescaled noise-map (rejected or "
+     "transparent), a second Preloads object at a re-used address; all slot subsets repeated in units of 1e-9.", "4/C15"),
 ]
 _ALL = ["C%02d" % i for i in range(1, 21)]
 _PENDING_REASON = ("check under construction in this session: machinery for this property is not yet committed "
